@@ -892,55 +892,54 @@ def r7_refused(ctx):
     if f.vararg is None:
         raise AnalysisError(construct + ' no longer takes *args')
     av = f.vararg
-    for n in (0, 1, 2, 3):
-        def oracle(atom, run, st, n=n):
-            a = run.expand(atom)
-            r = eval_cmp(a, num_val({'len(%s)' % av: n}))
-            if r is not None:
-                if n == 3:
-                    # 3 stands for "3 or more": the verdict must not depend
-                    # on the representative
-                    r2 = eval_cmp(a, num_val({'len(%s)' % av: 9}))
-                    if r2 != r:
-                        return None
-                return r
-            if U(a) == av:
-                return n > 0
-            return None
-        run = run_function(f, ctx.model, oracle=oracle)
-        if len(run.paths) != 1:
-            raise AnalysisError('%s: %d paths for len(args)=%d; test outside '
-                                'the length abstraction' % (
-                                    construct, len(run.paths), n))
-        p = run.paths[0]
-        d = {}
-        for e in p.events:
-            if e.kind != 'store':
-                continue
-            t = U(e.expr)
-            if t == 'self.error_args' and isinstance(e.extra, ast.Dict):
-                d = {k.value: U(v) for k, v in zip(e.extra.keys,
-                                                   e.extra.values)
-                     if isinstance(k, ast.Constant)}
-            elif t.startswith('self.error_args[') and \
-                    isinstance(e.expr.slice, ast.Constant):
-                d[e.expr.slice.value] = U(e.extra)
+    # the variadic parameter is bound to a display of n opaque elements
+    # (a0, a1, ...): length tests, indexes, slices and star-unpacking fold,
+    # whatever else the function tests forks - and every path has to end in
+    # the documented error_args
+    for n in (0, 1, 2, 3, 4):
+        elems = [ast.Name(id='a%d' % i, ctx=ast.Load()) for i in range(n)]
+        env = {av: ast.Tuple(elts=elems, ctx=ast.Load())}
+        run = run_function(f, ctx.model, params_env=env)
+        if not 1 <= len(run.paths) <= 16:
+            raise AnalysisError('%s: %d paths for len(args)=%d' % (
+                construct, len(run.paths), n))
+        rest = '(%s)' % ', '.join('a%d' % i for i in range(1, n))
         want = {}
-        if n == 0:
-            ok = set(d) == {'message'} and d['message'].startswith(("'", '"'))
-        elif n == 1:
-            want = {'message': 'str(%s[0])' % av}
-            ok = d == want
+        if n == 1:
+            want = {'message': 'str(a0)'}
         elif n == 2:
-            want = {'message': 'str(%s[0])' % av, 'data': '%s[1]' % av}
-            ok = d == want
-        else:
-            want = {'message': 'str(%s[0])' % av, 'data': '%s[1:]' % av}
-            ok = d == want
-        ctx.check(ok, construct, 'len(args)=%s%s -> %s' % (
-            n if n < 3 else '3+', '', want or '{message: <constant>}'),
-            key='row %d' % n, reason='with %d argument(s) error_args is %s'
-            % (n, d), where=where(f))
+            want = {'message': 'str(a0)', 'data': 'a1'}
+        elif n >= 3:
+            want = {'message': 'str(a0)', 'data': rest}
+        for p in run.paths:
+            d = {}
+            for e in p.events:
+                if e.kind != 'store':
+                    continue
+                t = U(e.expr)
+                if t == 'self.error_args' and isinstance(e.extra, ast.Dict):
+                    d = {k.value: U(run.expand(v))
+                         for k, v in zip(e.extra.keys, e.extra.values)
+                         if isinstance(k, ast.Constant)}
+                elif t.startswith('self.error_args[') and \
+                        isinstance(e.expr.slice, ast.Constant):
+                    d[e.expr.slice.value] = U(run.expand(e.extra))
+            d = {k: v.replace('[a', '(a').replace(']', ')')
+                 if k == 'data' and v.startswith('[a') else v
+                 for k, v in d.items()}
+            if n == 0:
+                ok = set(d) == {'message'} and \
+                    d['message'].lstrip('str(').startswith(("'", '"'))
+            else:
+                ok = d == want and p.normal
+            others = [('' if c.pol else 'not ') + U(run.expand(c.atom))[:40]
+                      for c in p.conds]
+            ctx.check(ok, construct, 'len(args)=%s -> %s' % (
+                n, want or '{message: <constant>}'),
+                key='row %d' % min(n, 3), reason='with %d argument(s) '
+                'error_args is %s%s' % (
+                    n, d, ' when ' + ' and '.join(others) if others else ''),
+                where=where(f))
 
 
 def r8_reason(ctx, fam):
